@@ -12,3 +12,17 @@ pub fn profile(v: &Value) -> Value {
     };
     json!({"out": verif_hooks::args_with_internal_git_profile(&args, p)})
 }
+
+/// K3: {repo, fn, pathspecs: [..]|null}: run the real call site; the configured git is a recorder for `diff`
+pub fn callsite(v: &Value) -> Value {
+    let repo = git_ai::git::find_repository_in_path(v["repo"].as_str().unwrap()).expect("repo");
+    let ps: Option<std::collections::HashSet<String>> = v["pathspecs"]
+        .as_array()
+        .map(|a| a.iter().map(|x| String::from_utf8(crate::bytes_of(x)).unwrap()).collect());
+    let r = match v["fn"].as_str().unwrap() {
+        "diff_added_lines" => repo.diff_added_lines("HEAD", "HEAD", ps.as_ref()).map(|_| ()),
+        "diff_workdir_added_lines" => repo.diff_workdir_added_lines("HEAD", ps.as_ref()).map(|_| ()),
+        _ => repo.diff_workdir_added_lines_with_insertions("HEAD", ps.as_ref()).map(|_| ()),
+    };
+    json!({"ok": r.is_ok(), "error": r.err().map(|e| e.to_string())})
+}
